@@ -174,7 +174,11 @@ def special_unit():
                            D.method(single(T('int')), 'many', [arg(T(V, 1, '&', [T('T')]), 'xs')]),
                            D.method(single(T('int')), 'as', [arg(T('U', 1, '&'), 'u'), arg(T('T'), 't')],
                                     tpl=[D.tparam('U', [T('double'), T(A)])]),
-                           D.static(single(T('int')), 'conv', [arg(T('U'), 'u')], tpl=[D.tparam('U', [T('string'), T('int')])])],
+                           D.static(single(T('int')), 'conv', [arg(T('U'), 'u')], tpl=[D.tparam('U', [T('string'), T('int')])]),
+                           # default values that merely *mention* the parameter names (inside literals)
+                           D.method(single(T('int')), 'tag', [arg(T('T'), 'x'), arg(T('string'), 's', '"T"'), arg(T('char'), 'c', "'T'"), arg(T('int'), 'n', '44')]),
+                           D.method(single(T('int')), 'utag', [arg(T('U'), 'u'), arg(T('string'), 's', '"U of T"')],
+                                    tpl=[D.tparam('U', [T('double')])])],
                     tpl=[D.tparam('T', [T('int'), T(A)])]))
     for tn, tg, pyn in (('int', 'int', 'TcInt'), (A, 'obj', 'TcArg')):
         plan.append({'kind': 'ctor', 'cls': 'gt.' + pyn, 'entity': 'gt::Tc<%s>::Tc' % tn, 'gens': [tg], 'names': ['v'], 'defaults': [None], 'k': 0})
@@ -185,12 +189,31 @@ def special_unit():
         for un, ug, us in (('double', 'double', 'Double'), (A, 'obj', 'Arg')):
             plan.append({'kind': 'method', 'cls': 'gt.' + pyn, 'name': 'as' + us, 'entity': 'gt::Tc<%s>::as<%s>' % (tn, un),
                          'gens': [ug, tg], 'names': ['u', 't'], 'defaults': [None, None], 'k': 0})
+        plan.append({'kind': 'method', 'cls': 'gt.' + pyn, 'name': 'tag', 'entity': 'gt::Tc<%s>::tag' % tn, 'gens': [tg, 'str', 'char', 'int'],
+                     'names': ['x', 's', 'c', 'n'], 'defaults': [None, '"T"', "'T'", '44'], 'k': 3})
+        plan.append({'kind': 'method', 'cls': 'gt.' + pyn, 'name': 'utagDouble', 'entity': 'gt::Tc<%s>::utag<double>' % tn, 'gens': ['double', 'str'],
+                     'names': ['u', 's'], 'defaults': [None, '"U of T"'], 'k': 1})
         for un, ug, us in (('std::string', 'str', 'String'), ('int', 'int', 'Int')):
             plan.append({'kind': 'static', 'cls': 'gt.' + pyn, 'name': 'conv' + us, 'entity': 'gt::Tc<%s>::conv<%s>' % (tn, un),
                          'gens': [ug], 'names': ['u'], 'defaults': [None], 'k': 0})
     # templated free function, explicit template arguments
     gt.append(D.func(single(T('int')), 'tf', [arg(T('T', 1, '&'), 'a'), arg(T('int'), 'k', '2')],
                      tpl=[D.tparam('T', [T('double'), T(A), T(V, t=[T('int')])])]))
+    gt.append(D.func(single(T('int')), 'tlit', [arg(T('T'), 'a'), arg(T('string'), 's', '"T"')], tpl=[D.tparam('T', [T('double')])]))
+    plan.append({'kind': 'function', 'mod': 'gt', 'name': 'tlitDouble', 'entity': 'gt::tlit<double>', 'gens': ['double', 'str'],
+                 'names': ['a', 's'], 'defaults': [None, '"T"'], 'k': 1})
+    # non-void members whose names begin with `print` (only `print` itself is special)
+    gt.append(D.cls('Pn', [D.ctor('Pn'), D.method(single(T('int')), 'objId', [], 1),
+                           D.method(single(T('string')), 'printSummary', [arg(T('int'), 'verbose')], 1),
+                           D.method(single(T('double')), 'printError', [arg(T('int'), 'o')], 1),
+                           D.method(single(T('int')), 'printed', [], 1),
+                           D.static(single(T('int')), 'printCount', [arg(T('int'), 'i')]),
+                           D.method(single(T('int')), 'reprint', [arg(T('int'), 'i')])]))
+    for nm, gens_, names_ in (('printSummary', ['int'], ['verbose']), ('printError', ['int'], ['o']), ('printed', [], []), ('reprint', ['int'], ['i'])):
+        plan.append({'kind': 'method', 'cls': 'gt.Pn', 'name': nm, 'entity': 'gt::Pn::' + nm, 'gens': gens_, 'names': names_,
+                     'defaults': [None] * len(gens_), 'k': 0})
+    plan.append({'kind': 'static', 'cls': 'gt.Pn', 'name': 'printCount', 'entity': 'gt::Pn::printCount', 'gens': ['int'], 'names': ['i'],
+                 'defaults': [None], 'k': 0})
     for tn, tg, suf in (('double', 'double', 'Double'), (A, 'obj', 'Arg'), ('std::vector<int>', 'vec', 'Vectorint')):
         plan.append({'kind': 'function', 'mod': 'gt', 'name': 'tf' + suf, 'entity': 'gt::tf<%s>' % tn, 'gens': [tg, 'int'],
                      'names': ['a', 'k'], 'defaults': [None, '2'], 'k': 1})
@@ -284,7 +307,7 @@ def gen_value(g, pos):
 
 DEFAULT_REPR = {'"d  0"': 's:d  0', '41': '41', '42': '42', '43': '43', '44': '44', '4.5': '4.5', '"d0"': 's:d0', 'true': 'true', '47': '47', '49': '49',
                 'gt::Kind::Cat': 'e:9', 'gt::Holder::Mode::SLOW': 'e:9', 'std::vector<int>(2, 7)': '[7,7]', "'q'": 'c:113', '200': 'uc:200',
-                '"s0"': 's:s0', '1.5': '1.5', '2.5': '2.5', '3.5': '3.5', '3': '3', '2': '2', '9': '9'}
+                '"s0"': 's:s0', '"T"': 's:T', "'T'": 'c:84', '"U of T"': 's:U of T', '1.5': '1.5', '2.5': '2.5', '3.5': '3.5', '3': '3', '2': '2', '9': '9'}
 
 def check(step, label, fn, entity, this, argreprs):
     global ncalls
